@@ -71,7 +71,7 @@ func c34(c *Ctx) {
 	// pickerSubConn: the SubConn stored into the picker of the State literal (nil if none).
 	pickerSubConn := func(f *ssa.Function, ci ssa.CallInstruction) ssa.Value {
 		for _, st := range storesToField(f, fPRsc) {
-			if st.Block() == ci.Block() {
+			if together(st, ci) {
 				return st.Val
 			}
 		}
@@ -230,7 +230,15 @@ func c34(c *Ctx) {
 			ns := ns
 			c.Unreachable(con, "no-connect-after-failed-subchannel-creation", NotNil(ExtractOf(func(v ssa.Value) bool { return v == ns.Value() }, 1)))
 			// after a successful creation the walk goes on to use the subchannel (it does not give up)
-			c.EnteredOnlyWhen(returnAfter(rq, ns), "walk-abandoned-only-when-creation-failed", NotNil(ExtractOf(func(v ssa.Value) bool { return v == ns.Value() }, 1)))
+			// (a return that can only be reached through the creation is "giving up right after it")
+			nAb := 0
+			for _, r := range returnsOf(rq) {
+				if r.Block() != rq.Recover && r.Block() != ns.Block() && ns.Block().Dominates(r.Block()) {
+					nAb++
+					c.MustFact(r, "walk-abandoned-only-when-creation-failed", NotNil(ExtractOf(func(v ssa.Value) bool { return v == ns.Value() }, 1)))
+				}
+			}
+			c.Expect(nAb >= 1, ns, rq, "creation-failure-handled", "a failed subchannel creation does not end the walk")
 		}
 		// addressList walk
 		inc := c.fn(pfp, "addressList.increment")
